@@ -307,6 +307,18 @@ class SpecEvalMixin:
                 return Ite(v.isnone, none_key, seq_concat(seq_unit(I(0)), v.inner.t))
             return seq_concat(seq_unit(I(0)), v.t)
         v = self.unwrap(v)
+        if isinstance(k, KPrim) and k.name.startswith("Any") and isinstance(v, VStr) and v.lit is not None:
+            # a string literal used as a key of a table keyed by objects: a token that is no instance of any class
+            name = "strtok$" + "".join(ch if ch.isalnum() else "_" for ch in v.lit)
+            t = self.decls.const(name, INT)
+            self.decls.fun("tok_isinst", [INT, INT], BOOL)
+            ax = f"(forall ((c Int)) (not (tok_isinst {name} c)))"
+            ax2 = f"(< {name} 0)"
+            for a in (ax2,):
+                if a not in self.decls.axioms:
+                    self.decls.axioms.append(a)
+            self.str_tokens = getattr(self, "str_tokens", set()) | {name}
+            return t
         if not hasattr(v, "t"):
             raise Unsupported(f"dict key {v!r}")
         if v.t.sort != elem_sort(k):
@@ -435,7 +447,12 @@ class SpecEvalMixin:
             if name == "old":
                 if env.old_st is None:
                     raise RuntimeError("old() outside a postcondition")
-                oenv = SpecEnv(env.old_st, env.old_names, None, None)
+                # names visible inside old(): macro parameters / ghosts of the current env shadow the entry names
+                onames = dict(env.old_names)
+                for k_, v_ in env.names.items():
+                    if k_ not in onames:
+                        onames[k_] = v_
+                oenv = SpecEnv(env.old_st, onames, env.old_st, env.old_names)
                 return self._sp(oenv, n.args[0])
             if name == "prev":
                 if env.prev_st is None:
@@ -466,6 +483,31 @@ class SpecEvalMixin:
                 v = self.unwrap(self._sp(env, n.args[0]))
                 attr = n.args[1].value
                 return VBool(self.hasattr_term(st, v, attr))
+            if name == "unchanged":
+                # unchanged(container): same content as in the old state; unchanged('deque:int') etc: whole heap of a kind
+                if env.old_st is None:
+                    raise RuntimeError("unchanged() outside a postcondition")
+                a0 = n.args[0]
+                if isinstance(a0, ast.Constant) and isinstance(a0.value, str):
+                    what, kind = a0.value.split(":", 1)
+                    key, sort = self._seq_key(parse_kind(kind), what)
+                    from .smt import arr as _arr
+                    new = self.heap_array(st, key, INT, sort)
+                    old = self.heap_array(env.old_st, key, INT, sort)
+                    return VBool(Eq(new, old))
+                v = self.unwrap(self._sp(env, a0))
+                if isinstance(v, VDict):
+                    ks, dom, vals = self._dict_keys(v)
+                    from .smt import arr as _arr
+                    conj = []
+                    for key, so in [(dom, BOOL)] + vals:
+                        new = select(self.heap_array(st, key, INT, _arr(ks, so)), v.t)
+                        old = select(self.heap_array(env.old_st, key, INT, _arr(ks, so)), v.t)
+                        conj.append(Eq(new, old))
+                    return VBool(And(*conj))
+                if isinstance(v, (VList, VDeque)):
+                    return VBool(Eq(self.seq_items(st, v), self.seq_items(env.old_st, v)))
+                raise Unsupported("unchanged() of this value")
             if name == "clock":      # the virtual clock (lower bound of the next time.time() reading)
                 return VFloat(st.clock)
             if name == "has":        # raw presence flag of a dynamic attribute (without __getattr__)
